@@ -39,6 +39,10 @@ def run(ctx):
     ctx.rule("R5", "the unrolled (backward=True) arm of every density update computes the same new density as the in-place arm")
     ctx.rule("R6", "the density builders pack / diagonalise / occupy every molecule with its own sizes (representative-row rule, masked fractional occupations)")
     from .c05 import check_masked_occupations, check_rep_rows
+    ctx.rule("R7", "the threshold a result is converged to is the requested one: scf_eps reaches every convergence comparison unmodified and is never loosened on the way "
+                   "(shared with C04-R4)")
+    from .c04 import _threshold_integrity
+    _threshold_integrity(ctx, "R7")
     check_rep_rows(ctx, "R6")
     check_masked_occupations(ctx, "R6")
     check_arm_agreement(ctx, scf, "R5")
